@@ -1,31 +1,734 @@
-//! Element-tracker profiles (C04 seq, C05 lww, C14 sticky, C20 weak, C11 events, C12 undo, C13 snap).
+//! Element-tracker profiles: C04 `seq` (exactly once / stable order / placed where inserted) and
+//! C05 `lww` (map entries are causal last-writer-wins registers). Both attribute every element and
+//! every map write to the update that made it, at its origin, by observing the acting replica
+//! before and after the local transaction (DESIGN.md §4.4).
 
+use crate::bits::BitSet;
+use crate::dump;
 use crate::monitors::{Pre, TxnKind};
-use crate::ops::Op;
+use crate::ops::{self, Kind, Op, Tgt, Val};
 use crate::world::*;
+use std::collections::{BTreeMap, HashMap, HashSet};
+use yrs::{Any, Array, ArrayRef, Map, MapRef, Out, ReadTxn, SharedRef, Text, TextRef, Transact, Xml, XmlElementRef, XmlFragment, XmlFragmentRef, XmlOut};
 
-pub struct SeqState {}
+#[derive(Clone, Debug, PartialEq, Eq, Hash, PartialOrd, Ord)]
+pub enum Tag {
+    C(char),
+    I(i64),
+    N(Tgt),
+}
+
+pub type SeqObs = BTreeMap<Tgt, Vec<Tag>>;
+
+/// map observation: (map target) -> key -> value identity
+pub type MapObs = BTreeMap<Tgt, BTreeMap<String, String>>;
+
+#[derive(Clone, Debug, PartialEq)]
+pub enum WKind {
+    Set(String),
+    Remove,
+}
+
+#[derive(Clone, Debug)]
+pub struct Write {
+    pub uid: usize,
+    /// order inside the transaction
+    pub k: usize,
+    pub map: Tgt,
+    pub key: String,
+    pub kind: WKind,
+    /// nested shared type created by this write (if any)
+    pub nested: Option<Tgt>,
+}
+
+pub struct SeqState {
+    // C04
+    pub ins: HashMap<Tag, usize>,
+    pub parent: HashMap<Tag, Tgt>,
+    pub del: HashMap<Tag, Vec<usize>>,
+    /// run-global pairwise order per container: (x, y) present => x was seen before y
+    pub before: HashMap<Tgt, HashSet<(Tag, Tag)>>,
+    // C05
+    pub writes: Vec<Write>,
+    /// map writes of the transaction being executed (attributed when its uid is known)
+    pub cur_writes: Vec<(Tgt, String, WKind, Option<Tgt>)>,
+    pub placement_err: Option<String>,
+}
 
 impl SeqState {
     pub fn new(_cfg: &RunCfg, _nodes: &[Node]) -> SeqState {
-        SeqState {}
+        SeqState {
+            ins: HashMap::new(),
+            parent: HashMap::new(),
+            del: HashMap::new(),
+            before: HashMap::new(),
+            writes: Vec::new(),
+            cur_writes: Vec::new(),
+            placement_err: None,
+        }
     }
 }
 
-pub fn pre_txn(_w: &mut World, _n: usize, _p: &mut Pre) {}
+// ---- observation ---------------------------------------------------------------------------------
 
-pub fn post_txn(_w: &mut World, _n: usize, _kind: &TxnKind, _uid: Option<usize>, _pre: &Pre, _ops: &[Op]) -> VResult {
+fn tgt_of<S: SharedRef>(s: &S) -> Tgt {
+    Tgt::from_branch_id(s.hook().id())
+}
+
+fn obs_out<T: ReadTxn>(txn: &T, o: &Out, acc: &mut SeqObs) -> Option<Tag> {
+    match o {
+        Out::Any(Any::BigInt(i)) => Some(Tag::I(*i)),
+        Out::Any(Any::Number(f)) => Some(Tag::I(*f as i64)),
+        Out::YText(t) => {
+            obs_text(txn, t, acc);
+            Some(Tag::N(tgt_of(t)))
+        }
+        Out::YXmlText(t) => {
+            let tr: &TextRef = t.as_ref();
+            obs_text(txn, tr, acc);
+            Some(Tag::N(tgt_of(t)))
+        }
+        Out::YArray(a) => {
+            obs_array(txn, a, acc);
+            Some(Tag::N(tgt_of(a)))
+        }
+        Out::YXmlElement(e) => {
+            let f: &XmlFragmentRef = e.as_ref();
+            obs_xml(txn, f, acc);
+            Some(Tag::N(tgt_of(e)))
+        }
+        Out::YXmlFragment(f) => {
+            obs_xml(txn, f, acc);
+            Some(Tag::N(tgt_of(f)))
+        }
+        _ => None,
+    }
+}
+
+fn obs_text<T: ReadTxn>(txn: &T, t: &TextRef, acc: &mut SeqObs) {
+    let mut tags = Vec::new();
+    for u in dump::text_units(txn, t) {
+        if let Some(c) = u.ch {
+            tags.push(Tag::C(c));
+        }
+    }
+    acc.insert(tgt_of(t), tags);
+}
+
+fn obs_array<T: ReadTxn>(txn: &T, a: &ArrayRef, acc: &mut SeqObs) {
+    let items: Vec<Out> = a.iter(txn).collect();
+    let mut tags = Vec::new();
+    for o in items.iter() {
+        if let Some(t) = obs_out(txn, o, acc) {
+            tags.push(t);
+        }
+    }
+    acc.insert(tgt_of(a), tags);
+}
+
+fn obs_xml<T: ReadTxn>(txn: &T, f: &XmlFragmentRef, acc: &mut SeqObs) {
+    let children: Vec<XmlOut> = f.children(txn).collect();
+    let mut tags = Vec::new();
+    for c in children {
+        match c {
+            XmlOut::Element(e) => {
+                let ff: &XmlFragmentRef = e.as_ref();
+                obs_xml(txn, ff, acc);
+                tags.push(Tag::N(tgt_of(&e)));
+            }
+            XmlOut::Fragment(ff) => {
+                obs_xml(txn, &ff, acc);
+                tags.push(Tag::N(tgt_of(&ff)));
+            }
+            XmlOut::Text(t) => {
+                let tr: &TextRef = t.as_ref();
+                obs_text(txn, tr, acc);
+                tags.push(Tag::N(tgt_of(&t)));
+            }
+        }
+    }
+    acc.insert(tgt_of(f), tags);
+}
+
+pub fn observe_seq<T: ReadTxn>(txn: &T) -> SeqObs {
+    let mut acc = SeqObs::new();
+    if let Some(t) = txn.get_text(dump::ROOT_TEXT) {
+        obs_text(txn, &t, &mut acc);
+    }
+    if let Some(a) = txn.get_array(dump::ROOT_ARRAY) {
+        obs_array(txn, &a, &mut acc);
+    }
+    if let Some(x) = txn.get_xml_fragment(dump::ROOT_XML) {
+        obs_xml(txn, &x, &mut acc);
+    }
+    acc
+}
+
+/// visible tag list of one container (used for the per-op placement check at the origin)
+pub fn list_of<T: ReadTxn>(txn: &T, tgt: &Tgt) -> Option<Vec<Tag>> {
+    let (ptr, kind) = ops::resolve_any(txn, tgt)?;
+    let mut acc = SeqObs::new();
+    match kind {
+        Kind::Text | Kind::XmlText => obs_text(txn, &TextRef::from(ptr), &mut acc),
+        Kind::Array => obs_array(txn, &ArrayRef::from(ptr), &mut acc),
+        Kind::XmlFragment | Kind::XmlElement => obs_xml(txn, &XmlFragmentRef::from(ptr), &mut acc),
+        Kind::Map => return None,
+    }
+    acc.remove(tgt)
+}
+
+fn value_id<T: ReadTxn>(txn: &T, o: &Out) -> String {
+    match o {
+        Out::Any(a) => dump::any_str(a),
+        Out::YText(t) => format!("{:?}", tgt_of(t)),
+        Out::YArray(t) => format!("{:?}", tgt_of(t)),
+        Out::YMap(t) => format!("{:?}", tgt_of(t)),
+        Out::YXmlElement(t) => format!("{:?}", tgt_of(t)),
+        Out::YXmlFragment(t) => format!("{:?}", tgt_of(t)),
+        Out::YXmlText(t) => format!("{:?}", tgt_of(t)),
+        other => {
+            let mut s = String::new();
+            dump::dump_out(txn, other, &mut s);
+            s
+        }
+    }
+}
+
+fn nested_tgt(o: &Out) -> Option<Tgt> {
+    match o {
+        Out::YText(t) => Some(tgt_of(t)),
+        Out::YArray(t) => Some(tgt_of(t)),
+        Out::YMap(t) => Some(tgt_of(t)),
+        Out::YXmlElement(t) => Some(tgt_of(t)),
+        Out::YXmlFragment(t) => Some(tgt_of(t)),
+        Out::YXmlText(t) => Some(tgt_of(t)),
+        _ => None,
+    }
+}
+
+fn obs_map_rec<T: ReadTxn>(txn: &T, o: &Out, acc: &mut MapObs) {
+    match o {
+        Out::YMap(m) => obs_map(txn, m, acc),
+        Out::YArray(a) => {
+            let items: Vec<Out> = a.iter(txn).collect();
+            for i in items.iter() {
+                obs_map_rec(txn, i, acc);
+            }
+        }
+        Out::YXmlElement(e) => obs_xml_attrs(txn, e, acc),
+        Out::YXmlFragment(f) => {
+            let ch: Vec<XmlOut> = f.children(txn).collect();
+            for c in ch {
+                if let XmlOut::Element(e) = c {
+                    obs_xml_attrs(txn, &e, acc);
+                }
+            }
+        }
+        _ => {}
+    }
+}
+
+fn obs_map<T: ReadTxn>(txn: &T, m: &MapRef, acc: &mut MapObs) {
+    let entries: Vec<(String, Out)> = m.iter(txn).map(|(k, v)| (k.to_string(), v)).collect();
+    let mut e = BTreeMap::new();
+    for (k, v) in entries.iter() {
+        e.insert(k.clone(), value_id(txn, v));
+    }
+    acc.insert(tgt_of(m), e);
+    for (_, v) in entries.iter() {
+        obs_map_rec(txn, v, acc);
+    }
+}
+
+fn obs_xml_attrs<T: ReadTxn>(txn: &T, e: &XmlElementRef, acc: &mut MapObs) {
+    let mut m = BTreeMap::new();
+    for (k, v) in e.attributes(txn) {
+        m.insert(k.to_string(), value_id(txn, &v));
+    }
+    acc.insert(tgt_of(e), m);
+    let ch: Vec<XmlOut> = e.children(txn).collect();
+    for c in ch {
+        if let XmlOut::Element(e2) = c {
+            obs_xml_attrs(txn, &e2, acc);
+        }
+    }
+}
+
+pub fn observe_maps<T: ReadTxn>(txn: &T) -> MapObs {
+    let mut acc = MapObs::new();
+    if let Some(m) = txn.get_map(dump::ROOT_MAP) {
+        obs_map(txn, &m, &mut acc);
+    }
+    if let Some(a) = txn.get_array(dump::ROOT_ARRAY) {
+        obs_map_rec(txn, &Out::YArray(a), &mut acc);
+    }
+    if let Some(x) = txn.get_xml_fragment(dump::ROOT_XML) {
+        obs_map_rec(txn, &Out::YXmlFragment(x), &mut acc);
+    }
+    acc
+}
+
+// ---- hooks ---------------------------------------------------------------------------------------
+
+pub struct SeqPre {
+    pub seq: Option<SeqObs>,
+}
+
+thread_local! {
+    static PRE_SEQ: std::cell::RefCell<Option<SeqObs>> = std::cell::RefCell::new(None);
+}
+
+pub fn pre_txn(w: &mut World, n: usize, _p: &mut Pre) {
+    match w.cfg.profile.as_str() {
+        "seq" => {
+            let o = observe_seq(&w.nodes[n].doc.transact());
+            PRE_SEQ.with(|p| *p.borrow_mut() = Some(o));
+        }
+        "lww" => {
+            w.mon.sp.seq.cur_writes.clear();
+        }
+        _ => crate::anchors::pre_txn(w, n),
+    }
+}
+
+/// per-op hook at the origin, inside the transaction: placement (C04) and write attribution (C05)
+pub fn around_op(w_profile: &str, st: &mut SeqState, txn: &mut yrs::TransactionMut, op: &Op) {
+    match w_profile {
+        "seq" | "sticky" | "weak" => {
+            let tgt = op.target().clone();
+            let before = list_of(txn, &tgt);
+            ops::exec_op(txn, op);
+            let after = list_of(txn, &tgt);
+            if let (Some(b), Some(a)) = (before, after) {
+                if let Some(e) = placement(op, &b, &a) {
+                    if st.placement_err.is_none() {
+                        st.placement_err = Some(e);
+                    }
+                }
+            }
+        }
+        "lww" => {
+            // which keys does the op write? (a clear writes every key present before it)
+            let tgt = op.target().clone();
+            let keys_before: Vec<String> = match ops::resolve_any(txn, &tgt) {
+                Some((ptr, Kind::Map)) => MapRef::from(ptr).keys(txn).map(|k| k.to_string()).collect(),
+                _ => vec![],
+            };
+            let alive = ops::resolve_any(txn, &tgt).is_some();
+            ops::exec_op(txn, op);
+            if !alive {
+                return;
+            }
+            match op {
+                Op::MSet { key, .. } | Op::MUpdate { key, .. } => {
+                    if let Some((ptr, Kind::Map)) = ops::resolve_any(txn, &tgt) {
+                        if let Some(v) = MapRef::from(ptr).get(txn, key) {
+                            let id = value_id(txn, &v);
+                            st.cur_writes.push((tgt, key.clone(), WKind::Set(id), nested_tgt(&v)));
+                        }
+                    }
+                }
+                Op::MRemove { key, .. } => {
+                    if keys_before.contains(key) {
+                        st.cur_writes.push((tgt, key.clone(), WKind::Remove, None));
+                    }
+                }
+                Op::MClear { .. } => {
+                    for k in keys_before {
+                        st.cur_writes.push((tgt.clone(), k, WKind::Remove, None));
+                    }
+                }
+                Op::XAttrSet { key, k: Kind::XmlElement, .. } => {
+                    if let Some((ptr, Kind::XmlElement)) = ops::resolve_any(txn, &tgt) {
+                        if let Some(v) = XmlElementRef::from(ptr).get_attribute(txn, key) {
+                            let id = value_id(txn, &v);
+                            st.cur_writes.push((tgt, key.clone(), WKind::Set(id), None));
+                        }
+                    }
+                }
+                Op::XAttrRemove { key, k: Kind::XmlElement, .. } => {
+                    st.cur_writes.push((tgt, key.clone(), WKind::Remove, None));
+                }
+                _ => {}
+            }
+        }
+        _ => {
+            ops::exec_op(txn, op);
+        }
+    }
+}
+
+fn val_tag(v: &Val) -> Option<Tag> {
+    match v {
+        Val::Int(i) => Some(Tag::I(*i)),
+        _ => None,
+    }
+}
+
+/// expected list after a local op, given the list before it; Some(message) on mismatch
+fn placement(op: &Op, before: &[Tag], after: &[Tag]) -> Option<String> {
+    let len = before.len();
+    let mut expect: Vec<Option<Tag>> = before.iter().cloned().map(Some).collect();
+    match op {
+        Op::TInsert { pos, s, .. } => {
+            let p = (*pos as usize) % (len + 1);
+            for (i, c) in s.chars().enumerate() {
+                expect.insert(p + i, Some(Tag::C(c)));
+            }
+        }
+        Op::TPush { s, .. } => {
+            for c in s.chars() {
+                expect.push(Some(Tag::C(c)));
+            }
+        }
+        Op::TRemove { pos, len: l, .. } | Op::ARemove { pos, len: l, .. } | Op::XRemove { pos, len: l, .. } => {
+            // text positions are in units incl. embeds; this profile generates no embeds
+            if len > 0 {
+                let p = (*pos as usize) % len;
+                let n = (*l as usize).max(1).min(len - p);
+                expect.drain(p..p + n);
+            }
+        }
+        Op::AInsert { pos, vals, .. } => {
+            let p = (*pos as usize) % (len + 1);
+            for (i, v) in vals.iter().enumerate() {
+                expect.insert(p + i, val_tag(v));
+            }
+        }
+        Op::APush { front, v, .. } => {
+            if *front {
+                expect.insert(0, val_tag(v));
+            } else {
+                expect.push(val_tag(v));
+            }
+        }
+        Op::XInsert { pos, .. } => {
+            let p = (*pos as usize) % (len + 1);
+            expect.insert(p, None);
+        }
+        _ => {}
+    }
+    let ok = expect.len() == after.len()
+        && expect.iter().zip(after.iter()).all(|(e, a)| match e {
+            Some(t) => t == a,
+            // a freshly created nested type: its identity is only known now, it must be new
+            None => matches!(a, Tag::N(_)) && !before.contains(a),
+        });
+    if ok {
+        None
+    } else {
+        Some(format!(
+            "local op {:?} on a sequence showing {:?} left it as {:?} (expected {:?}, '_' = the new nested element)",
+            op,
+            before,
+            after,
+            expect.iter().map(|e| e.clone().map(|t| format!("{:?}", t)).unwrap_or("_".into())).collect::<Vec<_>>()
+        ))
+    }
+}
+
+pub fn post_txn(w: &mut World, n: usize, kind: &TxnKind, uid: Option<usize>, _pre: &Pre, _ops: &[Op]) -> VResult {
+    match w.cfg.profile.as_str() {
+        "seq" => post_seq(w, n, kind, uid),
+        "lww" => post_lww(w, n, kind, uid),
+        _ => crate::anchors::post_txn(w, n, kind, uid),
+    }
+}
+
+fn post_seq(w: &mut World, n: usize, kind: &TxnKind, uid: Option<usize>) -> VResult {
+    w.stats.oracle_evals += 1;
+    if let Some(e) = w.mon.sp.seq.placement_err.take() {
+        return Err(viol("seq.placement", format!("node {}: {}", n, e)));
+    }
+    let obs = observe_seq(&w.nodes[n].doc.transact());
+    attribute_seq(w, n, kind, uid, &obs);
+    check_seq_state(w, n, &obs, "seq")
+}
+
+/// attribution at the origin: what a local transaction made appear / disappear
+pub fn attribute_seq(w: &mut World, _n: usize, kind: &TxnKind, uid: Option<usize>, obs: &SeqObs) {
+    if let (TxnKind::Local, Some(u)) = (kind, uid) {
+        let pre: SeqObs = PRE_SEQ.with(|p| p.borrow_mut().take()).unwrap_or_default();
+        let mut was: HashSet<Tag> = HashSet::new();
+        for (_, v) in pre.iter() {
+            for t in v {
+                was.insert(t.clone());
+            }
+        }
+        let mut is: HashSet<Tag> = HashSet::new();
+        for (c, v) in obs.iter() {
+            for t in v {
+                is.insert(t.clone());
+                if !was.contains(t) && !w.mon.sp.seq.ins.contains_key(t) {
+                    w.mon.sp.seq.ins.insert(t.clone(), u);
+                    w.mon.sp.seq.parent.insert(t.clone(), c.clone());
+                }
+            }
+        }
+        for t in was.iter() {
+            if !is.contains(t) {
+                w.mon.sp.seq.del.entry(t.clone()).or_default().push(u);
+            }
+        }
+    }
+}
+
+fn expected_visible(st: &SeqState, t: &Tag, cov: &BitSet, depth: u32) -> bool {
+    let Some(u) = st.ins.get(t) else { return false };
+    if !cov.contains(*u) {
+        return false;
+    }
+    if let Some(ds) = st.del.get(t) {
+        if ds.iter().any(|d| cov.contains(*d)) {
+            return false;
+        }
+    }
+    match st.parent.get(t) {
+        Some(Tgt::R(_)) | None => true,
+        Some(c @ Tgt::N(_, _)) => depth < 16 && expected_visible(st, &Tag::N(c.clone()), cov, depth + 1),
+    }
+}
+
+pub fn check_seq_state(w: &mut World, n: usize, obs: &SeqObs, prof: &str) -> VResult {
+    // 1. no element twice; 2. run-global pairwise order
+    let mut visible: HashSet<Tag> = HashSet::new();
+    for (c, v) in obs.iter() {
+        let mut seen: HashSet<&Tag> = HashSet::new();
+        for t in v {
+            if !seen.insert(t) || !visible.insert(t.clone()) {
+                return Err(viol(
+                    &format!("{}.dup", prof),
+                    format!("node {}: element {:?} is visible more than once ({:?}: {:?})", n, t, c, v),
+                ));
+            }
+        }
+        if v.len() <= 80 {
+            let rel = w.mon.sp.seq.before.entry(c.clone()).or_default();
+            for i in 0..v.len() {
+                for j in (i + 1)..v.len() {
+                    if rel.contains(&(v[j].clone(), v[i].clone())) {
+                        return Err(viol(
+                            &format!("{}.order", prof),
+                            format!(
+                                "node {}: {:?} shows {:?} before {:?}, but some replica state of this run showed them in the opposite order (state: {:?})",
+                                n, c, v[i], v[j], v
+                            ),
+                        ));
+                    }
+                    rel.insert((v[i].clone(), v[j].clone()));
+                }
+            }
+        }
+    }
+    // 3. never visible once a deletion of it has been received
+    let lo = w.nodes[n].lo.clone();
+    for t in visible.iter() {
+        if let Some(ds) = w.mon.sp.seq.del.get(t) {
+            if let Some(d) = ds.iter().find(|d| lo.contains(**d)) {
+                return Err(viol(
+                    &format!("{}.resurrected", prof),
+                    format!("node {}: element {:?} is visible although update u{} that deleted it has been received", n, t, d),
+                ));
+            }
+        }
+    }
+    // 4. exactly the elements whose insertion was received and no deletion of them or of an ancestor
+    if w.exact(n) && w.closed(&lo) && !has_missing(&w.nodes[n].doc) {
+        w.stats.closed_checks += 1;
+        let st = &w.mon.sp.seq;
+        for t in st.ins.keys() {
+            let exp = expected_visible(st, t, &lo, 0);
+            let vis = visible.contains(t);
+            if exp != vis {
+                return Err(viol(
+                    &format!("{}.presence", prof),
+                    format!(
+                        "node {} holds closed set {:?}: element {:?} (inserted by u{}, deleted by {:?}, container {:?}) is {} but should be {}",
+                        n,
+                        lo.to_vec(),
+                        t,
+                        st.ins[t],
+                        st.del.get(t),
+                        st.parent.get(t),
+                        if vis { "visible" } else { "not visible" },
+                        if exp { "visible" } else { "not visible" }
+                    ),
+                ));
+            }
+        }
+    }
     Ok(())
 }
 
-pub fn at_quiescence(_w: &mut World) -> VResult {
+// ---- C05 -----------------------------------------------------------------------------------------
+
+fn post_lww(w: &mut World, n: usize, kind: &TxnKind, uid: Option<usize>) -> VResult {
+    w.stats.oracle_evals += 1;
+    if let (TxnKind::Local, Some(u)) = (kind, uid) {
+        let cur = std::mem::take(&mut w.mon.sp.seq.cur_writes);
+        for (k, (map, key, wk, nested)) in cur.into_iter().enumerate() {
+            w.mon.sp.seq.writes.push(Write {
+                uid: u,
+                k,
+                map,
+                key,
+                kind: wk,
+                nested,
+            });
+        }
+    }
+    w.mon.sp.seq.cur_writes.clear();
+    // same set => same state
+    crate::monitors::check_closed_as(w, n, "lww")?;
+    if !w.exact(n) {
+        return Ok(());
+    }
+    let cov = w.nodes[n].lo.clone();
+    if !w.closed(&cov) || has_missing(&w.nodes[n].doc) {
+        return Ok(());
+    }
+    let obs = observe_maps(&w.nodes[n].doc.transact());
+    // happened-before between writes: a -> b iff same update and earlier, or b's author had seen a's update
+    let hb = |w: &World, a: &Write, b: &Write| -> bool {
+        if a.uid == b.uid {
+            a.k < b.k
+        } else {
+            w.uids[b.uid].seen.contains(a.uid)
+        }
+    };
+    let mut groups: BTreeMap<(Tgt, String), Vec<usize>> = BTreeMap::new();
+    for (i, wr) in w.mon.sp.seq.writes.iter().enumerate() {
+        if cov.contains(wr.uid) {
+            groups.entry((wr.map.clone(), wr.key.clone())).or_default().push(i);
+        }
+    }
+    let mut probes: Vec<&'static str> = Vec::new();
+    for ((map, key), idx) in groups.iter() {
+        let Some(entries) = obs.get(map) else { continue }; // map not reachable (deleted or parent deleted)
+        let ws: Vec<&Write> = idx.iter().map(|i| &w.mon.sp.seq.writes[*i]).collect();
+        let maximal: Vec<&Write> = ws.iter().filter(|a| !ws.iter().any(|b| hb(w, a, b))).cloned().collect();
+        let present = entries.get(key);
+        if maximal.len() > 1 {
+            probes.push("lww.key-with-concurrent-maximal-writes");
+        }
+        match present {
+            Some(v) => {
+                let from_max = maximal.iter().any(|m| m.kind == WKind::Set(v.clone()));
+                if !from_max {
+                    let known = ws.iter().any(|m| m.kind == WKind::Set(v.clone()));
+                    return Err(viol(
+                        if known { "lww.resurfaced" } else { "lww.unknown-value" },
+                        format!(
+                            "node {} (closed set {:?}): {:?}[{:?}] = {} but the writes no other received write on that key causally follows are {:?}",
+                            n,
+                            cov.to_vec(),
+                            map,
+                            key,
+                            v,
+                            maximal.iter().map(|m| (m.uid, &m.kind)).collect::<Vec<_>>()
+                        ),
+                    ));
+                }
+            }
+            None => {
+                if !maximal.iter().any(|m| m.kind == WKind::Remove) {
+                    return Err(viol(
+                        "lww.lost",
+                        format!(
+                            "node {} (closed set {:?}): {:?}[{:?}] is absent but every maximal write on it is a set: {:?}",
+                            n,
+                            cov.to_vec(),
+                            map,
+                            key,
+                            maximal.iter().map(|m| (m.uid, &m.kind)).collect::<Vec<_>>()
+                        ),
+                    ));
+                }
+            }
+        }
+        // a write concurrent with a removal survives it (where YATA guarantees it: the only
+        // maximal set had seen everything the maximal removals had seen on that key)
+        // `hb` is a lower bound of happened-before (what the author can be proven to have seen);
+        // this clause needs the other direction too: `maybe` is the upper bound (everything the
+        // author may have held when it emitted).
+        let maybe = |w: &World, a: &Write, b: &Write| -> bool {
+            if a.uid == b.uid {
+                a.k < b.k
+            } else {
+                w.uids[b.uid].deps.contains(a.uid)
+            }
+        };
+        let sets: Vec<&&Write> = maximal.iter().filter(|m| matches!(m.kind, WKind::Set(_))).collect();
+        if sets.len() == 1 && maximal.len() > 1 {
+            let wset = sets[0];
+            // the set is certainly maximal and certainly concurrent with the removals ...
+            let certainly_max = !ws.iter().any(|b| maybe(w, wset, b));
+            // ... and had certainly seen every value a maximal removal may have removed
+            let covered = maximal.iter().filter(|m| m.kind == WKind::Remove).all(|r| {
+                ws.iter().filter(|s| matches!(s.kind, WKind::Set(_)) && maybe(w, s, r)).all(|s| hb(w, s, wset))
+            });
+            if certainly_max && covered {
+                probes.push("lww.concurrent-remove-evaluated");
+                if let WKind::Set(v) = &wset.kind {
+                    if present != Some(v) {
+                        return Err(viol(
+                            "lww.concurrent-remove",
+                            format!(
+                                "node {} (closed set {:?}): {:?}[{:?}] shows {:?}; the write {} by u{} is concurrent with the removals and had seen every value they removed, so it should survive",
+                                n,
+                                cov.to_vec(),
+                                map,
+                                key,
+                                present,
+                                v,
+                                wset.uid
+                            ),
+                        ));
+                    }
+                }
+            }
+        }
+        // subtree clause: a nested type whose write has been causally overwritten / removed is gone
+        for a in ws.iter() {
+            if let Some(t) = &a.nested {
+                if ws.iter().any(|b| hb(w, a, b)) {
+                    probes.push("lww.subtree-evaluated");
+                    let txn = w.nodes[n].doc.transact();
+                    if ops::resolve_any(&txn, t).is_some() {
+                        return Err(viol(
+                            "lww.subtree",
+                            format!(
+                                "node {}: nested type {:?} written to {:?}[{:?}] by u{} was overwritten or removed by a later received write, but is still alive",
+                                n, t, map, key, a.uid
+                            ),
+                        ));
+                    }
+                }
+            }
+        }
+    }
+    for p in probes {
+        w.probe(p);
+    }
     Ok(())
 }
 
-pub fn draw(_w: &mut World) -> Option<Ev> {
-    None
+pub fn at_quiescence(w: &mut World) -> VResult {
+    match w.cfg.profile.as_str() {
+        "seq" | "lww" => {
+            for n in 0..w.nodes.len() {
+                post_txn(w, n, &TxnKind::Gc, None, &Pre::default(), &[])?;
+            }
+            Ok(())
+        }
+        _ => crate::anchors::at_quiescence(w),
+    }
 }
 
-pub fn exec(_w: &mut World, _n: usize, _k: &str, _a: &[u64], _s: &[String]) -> VResult {
-    Ok(())
+pub fn draw(w: &mut World) -> Option<Ev> {
+    crate::anchors::draw(w)
+}
+
+pub fn exec(w: &mut World, n: usize, k: &str, a: &[u64], s: &[String]) -> VResult {
+    crate::anchors::exec(w, n, k, a, s)
 }
